@@ -6,5 +6,6 @@ CONSTANTS
   AddressInOutput = FALSE
   ObjectHashIsAddress = FALSE
   ExtBufferIsStatic = FALSE
+  WarnLatchIsStatic = FALSE
   DefinesPersist = FALSE
 CHECK_DEADLOCK FALSE
